@@ -271,11 +271,13 @@ class Check:
 
     def _write_evidence(self, exit_code):
         os.makedirs(EVID, exist_ok=True)
-        n = len(self.obls)
+        known_obls = [o for o in self.obls if o.status == 'known-finding']
+        counted = [o for o in self.obls if o.status != 'known-finding']
+        n = len(counted)
         by_status = {}
         by_backend = {}
         secs = {}
-        for o in self.obls:
+        for o in counted:
             by_status[o.status] = by_status.get(o.status, 0) + 1
             by_backend[o.backend or 'none'] = by_backend.get(o.backend or 'none', 0) + 1
             secs[o.backend or 'none'] = secs.get(o.backend or 'none', 0.0) + o.seconds
@@ -299,6 +301,7 @@ class Check:
             'functions_under_contract': self.functions,
             'bounded_checks': self.bounded,
             'known_findings_matched': self.known_hits,
+            'known_finding_obligations_not_counted': [o.name for o in known_obls],
             'obligation_names': [o.name for o in self.obls][:400],
             'explanation': self.level_note or 'contract obligations generated from the working tree and discharged by SMT / engine; '
                                               'bounded stand-ins listed separately under bounded_checks and never counted as proved',
